@@ -211,12 +211,63 @@ def parse_cps(s):
     return "".join(chr(int(x)) for x in m.group(1).split()) if m else None
 
 
+def range_expr(case):
+    fn, data, start, end = case["fn"], case["data"], case["start"], case["end"]
+    tail = " %d" % start + ("" if end is None else " %d" % end)
+    if fn == "utf8->string":
+        return "(cps (utf8->string %s%s))" % (bv(bytes(data)), tail)
+    if fn == "string->utf8":
+        return "(bvl (string->utf8 %s%s))" % (sstr(bytes(data).decode()), tail)
+    if fn == "bytevector-copy":
+        return "(bvl (bytevector-copy %s%s))" % (bv(bytes(data)), tail)
+    return "(let ((to (make-bytevector %d 33))) (bytevector-copy! to %d %s%s) (bvl to))" % (case["tolen"], case["at"], bv(bytes(data)), tail)
+
+
+def range_judge(case):
+    fn, data, start, end = case["fn"], bytes(case["data"]), case["start"], case["end"]
+    e = len(data) if end is None else end
+    valid = 0 <= start <= e <= len(data)
+    if fn == "bytevector-copy!":
+        valid = valid and 0 <= case["at"] and case["at"] + (e - start) <= case["tolen"]
+
+    def judge(o):
+        got = o[0].strip()
+        if not valid:
+            # R7RS: "it is an error" - raising is not required (bytevector-copy! truncates), but whatever is returned
+            # may only contain bytes of the argument inside its bounds: anything else was read from outside the object
+            if got == "(error)":
+                return None
+            lo, hi = max(0, min(start, len(data))), max(0, min(e, len(data)))
+            clamped = data[lo:hi] if lo <= hi else b""
+            if fn == "bytevector-copy!":
+                r = parse_bvl(got)
+                if r is None or len(r) != case["tolen"] or any(x != 33 and x not in data for x in r):
+                    return ("range/out-of-range-result-exposes-foreign-bytes", "%s gave %s for data %r start %d end %r into %d bytes at %d" % (fn, got[:120], data, start, end, case["tolen"], case["at"]))
+                return None
+            r = parse_cps(got).encode() if fn == "utf8->string" and parse_cps(got) is not None else parse_bvl(got)
+            if r is None or r != clamped:
+                return ("range/out-of-range-result-exposes-foreign-bytes", "%s returned %s for data %r (length %d) start %d end %r: neither an error nor the part inside the bounds" % (fn, got[:120], data, len(data), start, end))
+            return None
+        want = data[start:e]
+        if fn == "utf8->string":
+            ok = parse_cps(got) == want.decode()
+        elif fn == "bytevector-copy!":
+            to = bytearray([33] * case["tolen"])
+            to[case["at"]:case["at"] + len(want)] = want
+            ok = parse_bvl(got) == bytes(to)
+        else:
+            ok = parse_bvl(got) == want
+        if not ok:
+            return ("range/wrong-result", "%s on %r start %d end %r gave %s, expected %r" % (fn, data, start, end, got[:120], want))
+    return judge
+
+
 EXCL = [0]
 
 
 def gen_cases(rng, n, b, known=()):
     for _ in range(n):
-        kind = rng.choice(["b64", "b64", "b64s", "qp", "qps", "uri", "uri", "json", "json", "json-text", "acc", "acc", "acc-oob", "u160", "hostile", "hostile", "utf8"])
+        kind = rng.choice(["b64", "b64", "b64s", "qp", "qps", "uri", "uri", "json", "json", "json-text", "acc", "acc", "acc-oob", "u160", "hostile", "hostile", "utf8", "range", "range"])
         if kind == "b64":
             x = rand_bytes(rng)
             case = {"codec": "base64-bytevector", "input": list(x)}
@@ -371,6 +422,18 @@ def gen_cases(rng, n, b, known=()):
                 elif got != "(error)":
                     return ("srfi160/out-of-range-not-rejected", "index %d of %d elements returned %s" % (k, len(vals), got[:100]))
             b.add(["(let ((v (%svector %s))) (list (%svector-ref v %d) (%svector->list v)))" % (typ, " ".join(map(str, vals)), typ, k, typ)], case, judge)
+        elif kind == "range":
+            # optional start / end arguments of the byte-level converters: every combination around the bounds
+            fn = rng.choice(["utf8->string", "string->utf8", "bytevector-copy", "bytevector-copy!"])
+            n = rng.randrange(0, 7)
+            data = [rng.randrange(97, 123) for _ in range(n)]
+            start = rng.randrange(-1, n + 3)
+            end = rng.choice([None, rng.randrange(-1, n + 4), n, n + 1, start + n if start > 0 else n + 1])
+            case = {"codec": "range", "fn": fn, "data": data, "start": start, "end": end}
+            if fn == "bytevector-copy!":
+                case["tolen"] = rng.randrange(0, 9)
+                case["at"] = rng.randrange(-1, case["tolen"] + 2)
+            b.add([range_expr(case)], case, range_judge(case))
         elif kind == "utf8":
             s = rand_text(rng, 30)
             enc = s.encode("utf-8")
@@ -523,6 +586,8 @@ def make_judge(case):
             elif got != "(error)":
                 return ("srfi160/out-of-range-not-rejected", got[:100])
         return judge
+    if c == "range":
+        return range_judge(case)
     if c == "utf8":
         s_, a = case["input"], case["start"]
 
